@@ -15,7 +15,7 @@ VARIABLES t, n
 S1(x) == SV(StrCps(x))
 Shapes == << <<>>, <<1>>, <<2>>, <<3>>, <<1, 1>>, <<1, 2>>, <<1, 3>>, <<2, 2>>, <<2, 3>>, <<3, 3>>,
              <<1, 1, 1>>, <<1, 1, 2>>, <<1, 1, 3>>, <<1, 2, 2>>, <<1, 2, 3>>, <<1, 3, 3>>, <<2, 2, 2>>, <<2, 2, 3>>, <<2, 3, 3>>, <<3, 3, 3>> >>
-Orgs == { [id |-> 1, name |-> S1("x"), k |-> IV(1)], [id |-> 2, name |-> NULL, k |-> NULL] }
+Orgs == { [id |-> 1, name |-> S1("x"), k |-> IV(1), lead |-> IV(2)], [id |-> 2, name |-> NULL, k |-> NULL, lead |-> NULL] }
 PostInfos == { [id |-> 1, tag |-> S1("p")], [id |-> 2, tag |-> NULL] }
 AuthorInfos == { [id |-> 1, tag |-> S1("a")], [id |-> 2, tag |-> S1("p")] }
 Authors == { [id |-> 1, name |-> S1("ann"), age |-> IV(30), rank |-> IV(1), org |-> IV(1), info |-> IV(1), home |-> IV(2)],
@@ -49,6 +49,7 @@ PostAtoms == { Cmp("eq", Id0("n"), IntL(1)), Cmp("eq", Id0("title"), SL("a")), C
                \* a mandatory (NOT NULL) key behind a nullable one: a post without author has no home either
                Cmp("eq", P("author", <<"home", "name">>), NullL), Cmp("eq", P("author", <<"home", "k">>), IntL(1)),
                Bool("or", Cmp("eq", P("author", <<"home", "name">>), SL("x")), Cmp("eq", Id0("n"), IntL(1))),
+               Cmp("eq", P("author", <<"org", "lead", "name">>), P("author", <<"name">>)),
                Bool("and", Cmp("eq", P("info", <<"tag">>), SL("p")), Cmp("ne", P("author", <<"info", "tag">>), SL("p"))),
                Coll(Id0("comments"), "any", None), Coll(Id0("authors"), "any", None), Coll(P("author", <<"posts">>), "any", None),
                Coll(P("author", <<"org", "authors">>), "any", Lam(eV, Cmp("gt", P("e", <<"rank">>), IntL(2)))) }
@@ -63,7 +64,10 @@ OrgBrackets == { Coll(Id0("authors"), q, Lam(eV, HE)) : q \in {"any", "all"} }
 PostBrackets == { Coll(Id0("comments"), q, Lam(cV, HC)) : q \in {"any", "all"} }
            \cup { Coll(Id0("authors"), q, Lam(eV, HE)) : q \in {"any", "all"} }
            \cup { Coll(P("author", <<"posts">>), q, Lam(pV, HP)) : q \in {"any", "all"} }
-AuthorAtoms == { Cmp("eq", P("home", <<"name">>), NullL), Cmp("eq", Id0("name"), SL("ann")), Cmp("eq", Id0("age"), NullL), Cmp("eq", P("org", <<"name">>), SL("x")),
+AuthorAtoms == { Cmp("eq", P("home", <<"name">>), NullL),
+                 \* paths that come back to the model they started from, and two routes into one table
+                 Cmp("eq", P("home", <<"lead", "name">>), SL("bob")), Cmp("ne", P("org", <<"lead", "age">>), IntL(30)),
+                 Bool("or", Cmp("eq", P("home", <<"lead", "name">>), Id0("name")), Cmp("eq", P("org", <<"lead", "name">>), NullL)), Cmp("eq", Id0("name"), SL("ann")), Cmp("eq", Id0("age"), NullL), Cmp("eq", P("org", <<"name">>), SL("x")),
                  Cmp("eq", P("org", <<"k">>), NullL), Coll(Id0("posts"), "any", None), Coll(Id0("edited"), "any", None) }
 AuthorBrackets == { Coll(Id0("posts"), q, Lam(pV, HP)) : q \in {"any", "all"} }
              \cup { Coll(Id0("edited"), q, Lam(pV, HP)) : q \in {"any", "all"} }
